@@ -93,6 +93,14 @@ def cases(tier: str, rng: random.Random) -> List[Case]:
                     for shape in ("VTuple", "VList"):
                         out.append(std_case(("NTupleV", fields, rng.choice([None, Some(N(2))]), co),
                                             (shape, xs), rng.choice(["sync", "async"]), tag="a:ntuple-arity"))
+    # (a'+) a whole-tuple check behind payload-changing slots: it sees, and the result holds, the slots' payloads
+    for fields, xs in (([STRIP, DEC], [G.S(" a "), G.S("1.5")]), ([DEC, STRIP], [G.I(2), G.S("b ")]),
+                       ([("ListV", STRIP, [], [], None), INT_INC], [("VList", [G.S(" q ")]), G.I(1)]),
+                       ([STRIP, DEC], [G.S("  "), G.S("1.5")]), ([STRIP, STRIP, DEC], [G.S(" a"), G.S("b "), G.S("7")])):
+        for k in (0, 1, 2):
+            for shape in ("VTuple", "VList"):
+                for m in ("sync", "async"):
+                    out.append(std_case(("NTupleV", fields, Some(N(k)), Some(("CoTupleOrList",))), (shape, xs), m, tag="a:ntuple-object"))
     # (a'') merging of equal payloads in sets and map keys
     for xs in ([G.S("a"), G.S(" a"), G.S("a ")], [G.S(" b "), G.S("b"), G.S("c")], [G.S("a")]):
         out += [std_case(("SetV", STRIP, [], [], None), ("VSet", xs), m, tag="a:merge") for m in ("sync", "async")]
@@ -318,7 +326,19 @@ def oracle(c: Case) -> Optional[dict]:
                                     "what": f"expected errors exactly at positions {[i for i, _ in bad]}, got {got!r}"}
         vals = [r.val for r in rs]
         if kind == "NTupleV" and v.validate_object is not None:
-            return None    # whole-object check: C04-style, covered by the correspondence
+            # the whole-tuple check is about the tuple of the slots' payloads; passing, that tuple is the result
+            obj = tuple(vals)
+            try:
+                verdict = v.validate_object(obj)
+            except Exception:  # noqa
+                return None
+            if verdict is None:
+                ok = type(got) is Valid and type(got.val) is tuple and _same(ctx, got.val, obj)
+                return None if ok else {"signature": "C03:payload",
+                                        "what": f"the whole-tuple check passes on the slots' payloads {obj!r}; expected Valid of them, got {got!r}"}
+            ok = type(got) is Invalid and got.validator is v and _same(ctx, got.value, obj)
+            return None if ok else {"signature": "C03:object-check",
+                                    "what": f"the whole-tuple check rejects the slots' payloads {obj!r}; expected an Invalid about them, got {got!r}"}
         want_payload = {"ListV": list, "SetV": set, "UTupleV": tuple, "NTupleV": tuple}[kind](vals)
         ok = type(got) is Valid and type(got.val) is type(want_payload) and _same(ctx, got.val, want_payload) \
             and (got.val is not x or isinstance(x, tuple))   # immutable tuples may be shared
